@@ -6,6 +6,8 @@ import (
 	"go/types"
 	"strconv"
 	"strings"
+
+	"golang.org/x/tools/go/ssa"
 )
 
 // Env is the evaluation environment of a spec expression.
@@ -364,6 +366,28 @@ func findField(t types.Type, name string) ([]int, types.Type, bool) {
 }
 
 func (e *Env) evalSel(n *SSel) Val {
+	// pkg.Const
+	if id, ok := n.X.(*SIdent); ok && e.pkg != nil {
+		if _, isVar := e.vars[id.Name]; !isVar {
+			if ip := e.x.prog.importsOf(e.pkg)[id.Name]; ip != nil {
+				if obj := ip.Scope().Lookup(n.Name); obj != nil {
+					switch o := obj.(type) {
+					case *types.Const:
+						return e.x.constVal(o.Type(), o.Val())
+					case *types.Var:
+						// package-level variable: read the global
+						sp := e.x.prog.SSA.Package(ip)
+						if sp != nil {
+							if g, ok := sp.Members[n.Name].(*ssa.Global); ok {
+								pv := Val{T: g.Type(), S: "1", P: &Ptr{Kind: ptrGlobal, Root: g.Type().(*types.Pointer).Elem(), Global: ip.Name() + "." + g.Name()}}
+								return e.hp().load(e.cur, pv, g.Type().(*types.Pointer).Elem())
+							}
+						}
+					}
+				}
+			}
+		}
+	}
 	// result.0 / result.1
 	xv := e.Eval(n.X)
 	if _, err := strconv.Atoi(n.Name); err == nil {
